@@ -49,6 +49,13 @@ def vectors(ctx):
             for o in offs:
                 xs.append(("trans", sgn * (t + o)))
                 xs.append(("trans", sgn * (t - o)))
+            # log-spaced distances from the transition, from 1e-13 to 1e-4 degree, ten per decade on either side (between the
+            # few-ulp neighbours and the coarse offsets above; within 1e-9 the verdict accepts either value, the comparison of
+            # the C and the Python twin in C15 does not)
+            for j in range(0, 91):
+                o = 10.0 ** (-13 + j / 10.0)
+                xs.append(("translog", sgn * (t + o)))
+                xs.append(("translog", sgn * (t - o)))
             x = t
             y = t
             for _ in range(4):
